@@ -366,7 +366,7 @@ pub fn run_check<E: Engine>(prop: &str, tier: &str, level: &str, extra: serde_js
     // 4. Evidence.
     let st = &batch.out.stats;
     let wall = t0.elapsed().as_secs_f64();
-    let unreached: Vec<&str> = EXPECTED_PROBES.iter().copied().filter(|p| !st.probes.contains_key(*p) && !st.faults.contains_key(*p)).collect();
+    let unreached: Vec<&str> = E::expected_probes().iter().copied().filter(|p| !st.probes.contains_key(*p) && !st.faults.contains_key(*p)).collect();
     let ev = json!({
         "property_id": prop,
         "tier": tier,
@@ -418,20 +418,6 @@ pub fn run_check<E: Engine>(prop: &str, tier: &str, level: &str, extra: serde_js
     (exit, Some(ev))
 }
 
-const EXPECTED_PROBES: [&str; 12] = [
-    "hold",
-    "hold_update_channel",
-    "drop_mutate",
-    "reorder",
-    "disconnect",
-    "reconnect",
-    "server_restart",
-    "mutate_buffered",
-    "two_mutates_buffered",
-    "two_updates_one_frame",
-    "disconnect_with_buffered_mutations",
-    "vis_toggled_again",
-];
 
 pub fn merge_counts(a: &mut BTreeMap<String, u64>, b: &BTreeMap<String, u64>) {
     for (k, v) in b {
